@@ -15,6 +15,9 @@ def methods_program(draw):
     meths = []
     for i in range(nm):
         np_ = draw(st.sampled_from([1, 1, 2, 3]))
+        # the first parameter is always a0 (the bodies use it); in the second pool one keyword name is the other plus a digit, so
+        # the order of the names with and without their colon differs ("k10:" < "k1:")
+        pnames = ["a0"] + draw(st.sampled_from([["a1", "a2"], ["k1", "k10"], ["opt", "opt2"]]))
         params = []
         for j in range(np_):
             kind = "pos" if j == 0 else draw(st.sampled_from(["pos", "pos", "def", "kw", "kwdef"]))
@@ -23,7 +26,7 @@ def methods_program(draw):
             if j > 0 and params[-1][1] == "def" and kind == "pos":
                 kind = "def"
             d = draw(st.integers(0, len(SC) - 1)) if kind in ("def", "kwdef") else None
-            params.append(["a%d" % j, kind, d])
+            params.append([pnames[j], kind, d])
         body = draw(st.sampled_from(["ident", "lit", "arr", "ret", "ident", "lit"]))
         fwd = None
         if i > 0 and draw(st.integers(0, 2)) == 0:
